@@ -439,7 +439,7 @@ func runLayer2(e *lib.Env) *l2Totals {
 		return t
 	}
 	r := e.Rand("layer2")
-	nCfg := e.Pick(200, 5000)
+	nCfg := e.Pick(200, 4000)
 	var cases []l2case
 	for i := 0; i < nCfg; i++ {
 		base := genL2(r, i, !e.Quick())
